@@ -331,6 +331,7 @@ def judge_zero(ctx, tape, r, op, ident, what, kappa):
     sz = matid.residual_size(tape, r)
     ctx.count('identity_residuals_judged')
     mech = '%s:%s' % (op, ident)
+    ctx.count('judged:' + mech)
     ctx.ev()
     vt = 1e-12 * kappa * max(sz['vscale'], 1.0)
     if not sz['value'] <= vt:
@@ -1115,12 +1116,38 @@ def case_einsum(ctx, rng, form, entries, layout, implicit):
     ctx.sample({'op': 'einsum', 'subscripts': call_sub, 'shapes': shapes, 'entries': entries, 'layout': layout, 'N': nconf})
 
 
+def instrument(ctx):
+    """count how often every judgement (mechanism) is evaluated: counters 'judged:<mechanism>' in the evidence; trial contexts
+    are instrumented as well (their counters arrive when the trial is absorbed)."""
+    if getattr(ctx, '_vmon_instrumented', False):
+        return ctx
+    ctx._vmon_instrumented = True
+    close, equal, require, trial = ctx.close, ctx.equal, ctx.require, ctx.trial
+
+    def c_close(got, exp, mechanism, *a, **k):
+        ctx.count('judged:' + mechanism)
+        return close(got, exp, mechanism, *a, **k)
+
+    def c_equal(got, exp, mechanism, *a, **k):
+        ctx.count('judged:' + mechanism)
+        return equal(got, exp, mechanism, *a, **k)
+
+    def c_require(cond, mechanism, *a, **k):
+        ctx.count('judged:' + mechanism)
+        return require(cond, mechanism, *a, **k)
+
+    def c_trial():
+        return instrument(trial())
+    ctx.close, ctx.equal, ctx.require, ctx.trial = c_close, c_equal, c_require, c_trial
+    return ctx
+
+
 # ------------------------------------------------------------------------------------------
 def setup(ctx):
     global PE, CTX
     import pyerrors as pe
     PE = pe
-    CTX = ctx
+    CTX = instrument(ctx)
     for o in OPS:
         taps.tap_function(pe.linalg, o, CountMonitor())
 
